@@ -68,3 +68,16 @@ Definition d_ex8 : osm :=
                                       {| m_type := TWay; m_ref := 11; m_role := "outer"; m_orient := -1; m_nodes := [] |} ];
                        r_tags := [("type", "multipolygon"); ("natural", "water")]; r_meta := meta0 |} ] |}.
 Definition r_ex8 : relation := hd {| r_id := 0; r_members := []; r_tags := []; r_meta := meta0 |} (relations d_ex8).
+
+(* IncludeInvalidPolygons and the holes of VALID polygons: a valid outer square (way 1), an
+   unclosed outer (way 2: three sides of a bigger square, listed after way 1, so Join emits it
+   first) and a hole (way 3) that ray casting finds inside both.  Without the option the unclosed
+   ring is dropped and the hole belongs to the square; with it the unclosed ring comes first and
+   claims the hole. *)
+Definition d_hole : osm :=
+  {| nodes := [nd 1 10 10; nd 2 20 10; nd 3 20 20; nd 4 10 20; nd 5 5 5; nd 6 25 5; nd 7 25 25; nd 8 5 25;
+               nd 9 13 13; nd 10 16 13; nd 11 16 16; nd 12 13 16];
+     ways := [wy 1 [] false [1; 2; 3; 4; 1]; wy 2 [] false [5; 6; 7; 8]; wy 3 [] false [9; 10; 11; 12; 9]];
+     relations := [ {| r_id := 1; r_members := [mw 1 "outer"; mw 2 "outer"; mw 3 "inner"];
+                       r_tags := [("type", "multipolygon"); ("natural", "water")]; r_meta := meta0 |} ] |}.
+Definition r_hole : relation := hd {| r_id := 0; r_members := []; r_tags := []; r_meta := meta0 |} (relations d_hole).
